@@ -416,6 +416,10 @@ def dimfile_cases(draw):
             pool = draw(st.sampled_from([["1.0", "2.0", "2.5", "10.0", "0.5", "3.25"], ["12", "7", "100", "3", "2020", "45"]]))
             k0 = draw(st.integers(0, len(pool) - len(d["items"])))
             d["items"] = list(draw(st.permutations(pool[k0 : k0 + len(d["items"])])))
+        elif d["dtype"] == "str" and draw(st.integers(0, 3)) == 0:
+            # labels with characters that mean something to file parsers: '#', ';', '%', quotes
+            odd = draw(st.permutations(["C#1", "#2 fuel oil", "a;b", "50%", "it's", "x=y", "p|q", "[new]"]))
+            d["items"] = list(odd[: len(d["items"])])
         elif d["dtype"] == "str" and draw(st.integers(0, 2)) == 0:
             # labels are free text: a size class may be called 's', a region 'b', a product 'Time'
             others = [o["letter"] for o in U["dims"]] + [o["name"] for o in U["dims"] if o is not d]
